@@ -198,6 +198,10 @@ def sampling(tier, rng, rep):
                         rep.fail("contains_intersects_elementwise", f"{kind}: i={i} j={j} contains {ec[i]}/{truth_c[i, j]} intersects {ei[i]}/{truth_i[i, j]}", {**inp, "i": i, "j": int(j)}); return
             # Moebius image: interior point of the image is on the image side
             M = rng.normal(size=(2, 2)) + 1j * rng.normal(size=(2, 2))
+            # a Moebius map is a matrix up to a non-zero complex scalar: every third round the matrix (and every sixth round
+            # also the disks' homogeneous data) carries an arbitrary tiny or large scale
+            if t % 3 == 0:
+                M = M * (10.0 ** (rng.uniform(-12, -8.5) if t % 2 == 0 else rng.uniform(-6, 3)) * np.exp(1j * rng.uniform(0, 2 * np.pi)))
             E = pr.Transformation(M.copy()) @ disks
             probe = cs + 0.5 * rs                      # a point inside each disk
             wimg = (M[0, 1] + probe * M[1, 1]) / (M[0, 0] + probe * M[1, 0])
@@ -205,6 +209,13 @@ def sampling(tier, rng, rep):
             inside_img = np.abs(wimg - (ce[:, 0] + 1j * ce[:, 1])) < re_
             if not np.array_equal(inside_img, E.center_inside()):
                 rep.fail("moebius_image_side", "image of an interior point is not on the side of the image's interior point", {**inp, "M_re": M.real.tolist(), "M_im": M.imag.tolist()}); return
+            # the image contains the image of the probe point and the double complement of the image is the image
+            if not np.all(E.contains(cp.CP1Disk(wimg, np.full(k, 1e-6))) | ~np.isfinite(wimg)):
+                rep.fail("moebius_image_side", "the image disk does not contain a small disk around the image of an interior point", {**inp, "M_re": M.real.tolist(), "M_im": M.imag.tolist()}); return
+            Ecc = E.complement().complement()
+            c2e, r2e = Ecc.circle_parameters()
+            if not np.all(np.abs(c2e - ce) <= 1e-6 * (1 + np.abs(ce))) or not np.all(np.abs(r2e - re_) <= 1e-6 * (1 + re_)) or not np.array_equal(Ecc.center_inside(), E.center_inside()):
+                rep.fail("double_complement", "of a Moebius image", {**inp, "M_re": M.real.tolist(), "M_im": M.imag.tolist()}); return
             # Fubini-Study: a disk built from spherical centre + FS radius reports them
             sc = rng.normal(size=(k, 3)); sc /= np.linalg.norm(sc, axis=-1, keepdims=True)
             fr = rng.uniform(0.1, 1.4, k)
